@@ -249,6 +249,53 @@ def _explore(ctx, keys):
     dis = ctx.correspond("zone.get+walk", ops, impl_factory(zmap), oracle=oracle_factory(zmap),
                          nontrivial=lambda t, r: t[0] != "zone.def", exhaustive=False)
     ctx.note("ops", len(ops))
+    # (d) the same point queries in OTHER ORDERS on FRESH zone objects: the suite above asks every zone in ascending
+    # order on the provider's shared object, so state kept between lookups (interval cache slots, memoised
+    # intervals) is only ever filled in one way. Here each chosen zone is re-created (source.for_id builds a new
+    # object) and asked in descending order, in a seeded shuffle, and far-future-first; the model is the same pure
+    # function of (zone, instant), so any order dependence shows as a disagreement.
+    from pyoda_time.time_zones._tzdb_date_time_zone_source import TzdbDateTimeZoneSource
+    src = TzdbDateTimeZoneSource.default
+    real = [(sid, rid) for sid, rid, _ in zs if rid is not None]
+    chosen = real if ctx.thorough else rng.sample(real, min(len(real), 45))
+    by_zone = {}
+    for o in ops:
+        t = o.split(" ")
+        if t[0] == "zone.get":
+            by_zone.setdefault(t[1], []).append(o)
+    for label in ("descending", "shuffled", "future-first"):
+        fresh = {sid: src.for_id(rid) for sid, rid in chosen}
+        oo = [Z.zone_def_line(sid, fresh[sid]) for sid, _ in chosen]
+        for sid, _ in chosen:
+            zo = list(by_zone.get(sid, []))
+            if not ctx.thorough and len(zo) > 160:
+                zo = rng.sample(zo, 160)
+            zo.sort(key=lambda o: int(o.split(" ")[2]))
+            if label == "descending":
+                zo.reverse()
+            elif label == "shuffled":
+                rng.shuffle(zo)
+            else:
+                k = len(zo) // 2
+                zo = zo[k:][::-1][:3] + zo[:k] + zo[k:]
+            oo.extend(zo)
+        hist = {}
+        base_impl, base_oracle = impl_factory(fresh), oracle_factory(fresh)
+
+        def impl_h(t, _h=hist, _i=base_impl):
+            if t[0] == "zone.get":
+                _h.setdefault(t[1], []).append(" ".join(t))
+            return _i(t)
+
+        def oracle_h(t, _h=hist, _o=base_oracle):
+            f = _o(t)
+            if f and t[0] == "zone.get":
+                f = dict(f)
+                f["history"] = list(_h.get(t[1], []))[-400:]      # the lookups made on this zone object so far, in order
+                f["what"] += f" [after {len(_h.get(t[1], []))} earlier lookups on the same fresh zone object; the replay repeats them]"
+            return f
+        ctx.correspond("zone.get.order." + label, oo, impl_h, oracle=oracle_h,
+                       nontrivial=lambda t, r: t[0] != "zone.def", exhaustive=False)
 
 
 
@@ -256,6 +303,16 @@ def _explore(ctx, keys):
 def replay_op(op, failure):
     t = op.split(" ")
     zid = t[1]
+    if failure.get("history"):
+        # order-dependent failure: rebuild a fresh zone object and repeat the recorded lookups first
+        from pyoda_time.time_zones._tzdb_date_time_zone_source import TzdbDateTimeZoneSource
+        rid = next((k for k in TzdbDateTimeZoneSource.default.canonical_id_map if Z.safe_id(k) == zid), zid)
+        z = TzdbDateTimeZoneSource.default.for_id(rid)
+        im = impl_factory({zid: z})
+        for h in failure["history"]:
+            if h != op:
+                guard(im, h.split(" "))
+        return oracle_factory({zid: z})(t)
     tz = Z.tzdb()
     if zid.startswith("fixed"):
         z = Z.P().DateTimeZone.for_offset(Z.P().Offset.from_seconds(int(zid[5:])))
